@@ -193,6 +193,92 @@ def worker(task: Tuple) -> Dict[str, Any]:
     return acc.finish()
 
 
+# temperatures: the left operand in an absolute unit (its kelvin map has no offset), the right
+# one in any scale; a + b and a - b come back in the left unit and denote K(a) +/- K(b)
+ABSOLUTE = ["measured.si.Kelvin", "measured.us.Rankine", "(measured.si.Milli * measured.si.Kelvin)",
+            "(measured.si.Kilo * measured.us.Rankine)"]
+SCALES = ["measured.si.Kelvin", "measured.si.Celsius", "measured.us.Fahrenheit", "measured.us.Rankine",
+          "(measured.si.Milli * measured.si.Celsius)", "(measured.si.Kilo * measured.us.Fahrenheit)"]
+
+
+def affine_replay(op: str, uc: str, vc: str, m: Dict[str, Fraction], kU: Tuple, kV: Tuple) -> str:
+    return families.REPLAY_IMPORTS + f"""
+U, V = {uc}, {vc}
+x, y = {float(m.get('x', Fraction(300)))!r}, {float(m.get('y', Fraction(20)))!r}
+(a1, b1), (a2, b2) = {tuple(map(float, kU))!r}, {tuple(map(float, kV))!r}    # kelvin = a*magnitude + b, from the declarations
+a, b = x * U, y * V
+r = a {'+' if op == 'add' else '-'} b
+KA, KB = a1 * x + b1, a2 * y + b2
+got = a1 * float(r.magnitude) + b1
+want = KA {'+' if op == 'add' else '-'} KB
+print(a, {'"+"' if op == 'add' else '"-"'}, b, '=', r, ' in kelvin:', got, ' K(a) op K(b):', want)
+if r.unit is not U or abs(got - want) > 4e-9 * (abs(KA) + abs(KB) + 1):
+    print('REPRODUCED: the result depends on the scale the right operand is written in'); sys.exit(1)
+sys.exit(0)
+"""
+
+
+def affine_worker(task: Tuple) -> Dict[str, Any]:
+    from props import c10
+
+    orc = families.boot()
+    n_ = ns()
+    acc = work.Acc()
+    maps = c10.to_kelvin_maps(orc)
+    absz = lambda e: z3.If(e >= 0, e, -e)
+
+    def kmap(unit: Any) -> Tuple[Fraction, Fraction]:
+        base = next(iter(unit.factors))
+        a, b = maps[base.name]
+        pv = Fraction(unit.prefix.base) ** unit.prefix.exponent if unit.prefix.base else Fraction(1)
+        return a * pv, b
+
+    with symnum.Shims():
+        for uc, vc in task:
+            U, V = eval(uc, n_), eval(vc, n_)
+            kU, kV = kmap(U), kmap(V)
+            if kU[1] != 0:
+                raise symnum.HarnessError(f"{uc} is not an absolute scale")
+            label = f"{families.show(U)},{families.show(V)}"
+            for op in ("add", "sub"):
+                def fn() -> Any:
+                    from measured import Quantity
+
+                    a, b = Quantity(mk("float", X), U), Quantity(mk("float", Y), V)
+                    return a + b if op == "add" else a - b
+
+                ex = explore(fn, max_paths=16)
+                acc.explored(ex)
+                KA, KB = symnum.q(kU[0]) * X, symnum.q(kV[0]) * Y + symnum.q(kV[1])
+                for i, p in enumerate(ex.paths):
+                    key, name = (label, op, i), f"{label}:{op}#p{i}(scales)"
+                    rp = lambda m: affine_replay(op, uc, vc, m, kU, kV)
+                    if p.exc is not None:
+                        acc.ob("sat", name + ":raises", key)
+                        acc.out["viol"].append((f"C06:raises:{op}:{label}", f"{p.outcome} from {op} on {label}", rp({})))
+                        continue
+                    res = p.result
+                    got = symnum.q(kU[0]) * real(symnum.term(res.magnitude))
+                    want = KA + KB if op == "add" else KA - KB
+                    goal = z3.And(z3.BoolVal(res.unit is U),
+                                  absz(got - want) <= symnum.q(Fraction(1, 10 ** 9)) * (absz(KA) + absz(KB) + 1))
+                    r, _ = acc.P.check(p.cond, z3.Not(goal))
+                    if r != "sat":
+                        acc.ob("unsat" if r == "unsat" else "unknown", name, key)
+                        continue
+                    small = [X >= -1000, X <= 1000, Y >= -1000, Y <= 1000]
+                    m = acc.P.shaped_model([p.cond, z3.Not(goal), *small], [X, Y]) or \
+                        acc.P.shaped_model([p.cond, z3.Not(goal)], [X, Y])
+                    if m is None:
+                        acc.ob("unknown", name + "(real-model-only)", key)
+                        continue
+                    acc.ob("sat", name, key)
+                    acc.out["viol"].append((f"C06:{op}:{label}", f"{op} on {label}: the result is not K(a) "
+                                            f"{'+' if op == 'add' else '-'} K(b)", rp(m)))
+        acc.sample({"scales": task[0], "ops": "add sub with the left operand in an absolute unit"})
+    return acc.finish()
+
+
 def tasks_for(tier: str) -> List[Tuple]:
     items: List[Tuple] = []
     for g in GROUPS:
@@ -213,6 +299,8 @@ def tasks_for(tier: str) -> List[Tuple]:
 def main(tier: str, selftest_cases: int = 0) -> int:
     rep = report.Report(PID, tier, "other")
     tasks = families.shuffled(tasks_for(tier), rep.seed)
+    affine = [(u, v) for u in (ABSOLUTE if tier == "thorough" else ABSOLUTE[:3]) for v in SCALES if u != v]
+    work.merge(rep, par.run("props.c06", "affine_worker", [ch for ch in par.chunks(affine, 6)]))
     results = par.run("props.c06", "worker", tasks)
     work.merge(rep, results)
     rep.functions.update(["measured.Quantity.__add__", "measured.Quantity.__sub__",
